@@ -40,7 +40,10 @@ Inductive tree :=
 | TFile (a : attrs) (data : bytes)
 | TLink (a : attrs) (target : bytes)
 | TDev (a : attrs) (rdev : N)
-| TOther (a : attrs).                (* fifo, socket: tar() skips them *)
+| TOther (a : attrs).                (* fifo, socket: tar() skips them with a warning *)
+
+(* what tar() writes something for *)
+Definition archived (t : tree) : bool := match t with TOther _ => false | _ => true end.
 
 Definition tree_attrs (t : tree) : attrs :=
   match t with TDir a _ | TFile a _ | TLink a _ | TDev a _ | TOther a => a end.
@@ -179,6 +182,7 @@ Fixpoint tar_ev (fuel : nat) (f : file_event) (evs : list file_event)
   end
 
 (* for { f, err := fs.Next(); EOF -> break; path.Dir(f.Path) != dir -> fs.Buffer(f), break;
+         unsupported node type -> warn, continue (nothing is written for it);
          filename element; tar(f); items = append(items, ...) } *)
 with dir_loop (fuel : nat) (dir : list bytes) (evs : list file_event) (n : N)
               (items : list item) (acc : list elem)
@@ -190,6 +194,7 @@ with dir_loop (fuel : nat) (dir : list bytes) (evs : list file_event) (n : N)
       | [] => Some (acc, n, items, [])
       | g :: rest =>
           if negb (FS.path_eqb (removelast (fe_path g)) dir) then Some (acc, n, items, evs)
+          else if negb (supported (fe_mode g)) then dir_loop fuel' dir rest n items acc   (* skipping ...; continue *)
           else
             let name := GoPath.base (fe_name g) in
             let fn := filename_elem name in
@@ -239,10 +244,12 @@ Fixpoint tar_tree (path : list bytes) (name : bytes) (t : tree) : option (list e
         match ch with
         | [] => Some []
         | (nm, c) :: r =>
-            match tar_tree (path ++ [nm]) nm c, kids r with
-            | Some els, Some rs => Some ((nm, els) :: rs)
-            | _, _ => None
-            end
+            if archived c then
+              match tar_tree (path ++ [nm]) nm c, kids r with
+              | Some els, Some rs => Some ((nm, els) :: rs)
+              | _, _ => None
+              end
+            else kids r                      (* fifo, socket: the loop continues *)
         end in
       match kids ch with
       | None => None
